@@ -17,19 +17,32 @@
       the class (each gap an integer >= 1), whose possible signs follow from the coefficient signs; where the ordering does not fix the
       sign of D the class is split by it.  No concrete values are evaluated (numbers only appear in the printed witness).  A guard that
       depends on data outside the attempt row, or whose truth is correlated with D in a way the split does not capture, is declined.
-Not decided: attribution across a UTC date roll-over, numeric totals.
+  R7  the closure table behind the job-group fan-out (engines/c02closure.py): abstract execution of every creation of a job group (each call site of
+      the function that inserts the job_groups row; generic iteration of the loop over the request's specs; per-request ancestor caches as heap
+      objects keyed by linear forms of ids): the rows reaching job_group_self_and_ancestors are exactly (g, g, 0) + every row of the parent with
+      level + 1 - also when the parent was created by an earlier element of the same request.  Inductive step when every cache store is canonical
+      (key = a group id, value = that group's chain), otherwise the two-step history (g1, then a child of g1) with exact stores.
+  R8  lifetime of what the aggregates were computed from (engines/c02schema.py: foreign-key graph replayed from the migrations): nothing subtracts
+      usage, and rows removed through ON DELETE CASCADE fire no trigger, so no statement anywhere (effective routines, migrations after the v3
+      aggregates, Python of the batch service) may DELETE / REPLACE rows of attempts, attempt_resources or of any table they hang off by cascade
+      (instances, jobs, batches, job_groups, batch_updates, ..), nor rewrite the columns the triggers multiply by / key on
+      (attempt_resources.quantity / ids, batches.billing_project / user, jobs.job_group_id, closure rows).
+Not decided: attribution across a UTC date roll-over, numeric totals; a closure copy restricted by a filter (declined); deletes restricted by a sub-query (declined).
 """
 from __future__ import annotations
 
 import ast
 import itertools
+import re
 from typing import Any, Dict, Iterator, List, Optional, Sequence, Tuple
 
 from engines import attemptfacts as af
+from engines import c02schema as cs
 from engines import pyfacts as pf
 from engines import sqlfront as sf
 from engines import sqlrules as sr
-from engines.common import AnalysisError, Ctx
+from engines.common import AnalysisError, AnchorRemoved, Ctx
+from engines.common import short as common_short
 from engines.sqlast import N, parse_expr, text
 from engines.sqleval import UNKNOWN, may
 
@@ -38,11 +51,14 @@ META = dict(
     text='Per-statement obligations of the billing invariant decided on every writer of the four aggregate tables: same duration function in both '
          'triggers and in the audit, increment = duration difference x quantity with insert/on-duplicate symmetry and correct keys, complementary '
          'row coverage, idempotent resource registration, sum-preserving compaction, closed-world writers; and the conditions that enclose the aggregate upserts '
-         'are TRUE whenever the billed duration changes, decided over the order domain of (OLD row, stored row) pairs that the writers of attempts and the BEFORE UPDATE trigger produce.',
+         'are TRUE whenever the billed duration changes, decided over the order domain of (OLD row, stored row) pairs that the writers of attempts and the BEFORE UPDATE trigger produce. '
+         'Inputs of the triggers: the closure rows every new job group receives (abstract execution of the creating Python code, per-request caches included) and the lifetime of billed rows '
+         '(no DELETE reaches attempts / attempt_resources directly or through an ON DELETE CASCADE chain; trigger inputs are write-once).',
     note='Trusted: SQL parser, migration replay; MySQL trigger semantics (AFTER INSERT does not fire for a duplicate-key no-op). Date roll-over and numeric totals not decided. '
          'R6 over-approximates the reachable attempt rows (every OLD row with rollup <= end; call-chain NULL classes as in C03).',
     technique='static analysis: SQL AST normal forms, sibling agreement between the two billing triggers and the audit query, closed-world writer scan, path conditions of the trigger body '
-              'evaluated symbolically (three-valued, linear forms over the gaps of each ordering class) on the abstract row pairs shared with C03',
+              'evaluated symbolically (three-valued, linear forms over the gaps of each ordering class) on the abstract row pairs shared with C03; abstract execution of Python over symbolic '
+              'ids (linear normal forms) and row-set segments with explicit case splits; foreign-key graph replay and closed-world scan of row-removing statements',
     design_ref='DESIGN.md §3 C02',
 )
 
@@ -527,6 +543,19 @@ def r4(ctx: Ctx) -> None:
               '(ON DUPLICATE KEY UPDATE quantity = quantity), otherwise usage already billed with the old quantity no longer matches', m.path, e.lineno)
     cols = [c.lower() for c in st.cols or []]
     ctx.check(cols == ['batch_id', 'job_id', 'attempt_id', 'resource_id', 'deduped_resource_id', 'quantity'], 'R4', f'{m.rel}::add_attempt_resources::columns', f'columns {cols}', m.path, e.lineno)
+    # the values bound to those columns: the attempt's own key, and both ids of ONE resource record (the triggers key every aggregate on deduped_resource_id)
+    elts = sr.args_tuple(e.fn, e.call.args[1] if len(e.call.args) > 1 else None)
+    ctx.need(elts is not None and len(elts) == len(cols) and len(st.rows) == 1 and all(x.kind == 'param' for x in st.rows[0]), 'add_attempt_resources: the values of the insert are not a tuple per row that can be bound to the columns')
+    vals = dict(zip(cols, elts))
+    if all(c in vals for c in ('batch_id', 'job_id', 'attempt_id', 'resource_id', 'deduped_resource_id')):
+        keys = {c: pf.nsrc(pf.resolve_expr(e.fn, vals[c])) for c in ('batch_id', 'job_id', 'attempt_id')}
+        ctx.check(all(keys[c] == c for c in keys), 'R4', f'{m.rel}::add_attempt_resources::attempt key', f'the attempt key columns receive {keys}; expected the (batch_id, job_id, attempt_id) the resources were reported for',
+                  m.path, e.lineno)
+        rid, did = vals['resource_id'], vals['deduped_resource_id']
+        ctx.need(isinstance(rid, ast.Attribute) and isinstance(did, ast.Attribute), f'add_attempt_resources: resource ids are `{pf.nsrc(rid)}` / `{pf.nsrc(did)}`, not attributes of a resource record')
+        ctx.check(rid.attr == 'resource_id' and did.attr == 'deduped_resource_id' and pf.nsrc(rid.value) == pf.nsrc(did.value), 'R4', f'{m.rel}::add_attempt_resources::resource ids',
+                  f'resource_id / deduped_resource_id receive `{pf.nsrc(rid)}` / `{pf.nsrc(did)}`; expected .resource_id and .deduped_resource_id of the same resource record: the triggers add the usage under '
+                  'deduped_resource_id, a recomputation joins resources on resource_id', m.path, e.lineno)
 
 
 def r5(ctx: Ctx, prog: sf.SqlProgram) -> None:
@@ -610,20 +639,271 @@ def r1_audit(ctx: Ctx) -> None:
     ctx.need(n >= 3, f'only {n} duration expressions in the audit')
 
 
+# ----------------------------------------------------------------------------------------------------
+# R8: the rows and columns the aggregates were computed from are never removed or rewritten behind the triggers' back
+# ----------------------------------------------------------------------------------------------------
+BILLED_ROWS = ('attempts', 'attempt_resources')
+# columns the two triggers multiply by or key on (besides the billed times of `attempts`, which the update trigger itself follows)
+TRIGGER_INPUTS = {
+    'attempt_resources': ('batch_id', 'job_id', 'attempt_id', 'resource_id', 'deduped_resource_id', 'quantity'),
+    'attempts': ('batch_id', 'job_id', 'attempt_id'),
+    'batches': ('billing_project', 'user'),
+    'jobs': ('job_group_id',),
+    'job_group_self_and_ancestors': ('batch_id', 'job_group_id', 'ancestor_id'),
+}
+_REMOVE_WORD = re.compile(r'\b(DELETE|TRUNCATE|REPLACE)\b', re.I)
+
+
+def _removal_verdict(schema: cs.Schema, prog: sf.SqlProgram, table: str) -> Optional[Tuple[str, str, List[cs.FK]]]:
+    """('bad' | 'undecided', why, cascade path) when deleting a row of `table` removes billed rows without any trigger subtracting their
+    usage; None when the table is not connected to the billed rows."""
+    t = table.lower()
+    if t in BILLED_ROWS:
+        path: Optional[List[cs.FK]] = []
+    else:
+        path = schema.cascade_path(t, BILLED_ROWS)
+    if path is None:
+        return None
+    unc = [fk.uncertain for fk in path if fk.uncertain]
+    if unc:
+        return ('undecided', unc[0], path)
+    if not path:
+        comp = [r.name for tb in (t,) for r in prog.triggers_on(tb, 'DELETE')]
+        if comp:
+            return ('undecided', f'{t} has DELETE trigger(s) {comp}: whether they take the usage of the removed row out of every aggregate is not analysed', path)
+    return ('bad', '', path)
+
+
+def _chain_text(table: str, path: List[cs.FK]) -> str:
+    if not path:
+        return f'{table} rows are the billed rows themselves'
+    return ' ; '.join(f'{fk.child}({", ".join(fk.cols)}) REFERENCES {fk.parent}({", ".join(fk.pcols)}) ON DELETE CASCADE [{fk.file}]' for fk in path)
+
+
+def _removal_message(table: str, path: List[cs.FK], st_text: str) -> str:
+    gone = 'attempt_resources' if (path and path[-1].child.lower() == 'attempt_resources') or table.lower() == 'attempt_resources' else 'attempts (and, through its own cascade, attempt_resources)'
+    return (f'`{st_text}` removes rows of {table}; every such row takes {gone} rows with it ({_chain_text(table, path)}). No trigger subtracts their usage (there is no DELETE '
+            'trigger, and MySQL does not fire triggers for rows removed by a foreign-key cascade), so aggregated_job_resources_v3 / aggregated_job_group_resources_v3 / '
+            'aggregated_billing_project_user_resources(_by_date)_v3 keep quantity x billed time of attempts that no longer exist: history = attempt billed and finished, '
+            f'then this statement removes its {table} row -> recorded usage X > 0, sum over the remaining attempts 0')
+
+
+def _assigned_columns(st: N) -> List[Tuple[str, str, N]]:
+    """(table, column, value) for every column an UPDATE / ON DUPLICATE KEY UPDATE clause assigns."""
+    out: List[Tuple[str, str, N]] = []
+    if st.kind == 'update':
+        tabs = [t for t in sf.from_tables(st.frm) if t.kind == 'table']
+        alias = {(t.alias or t.name).lower(): t.name.lower() for t in tabs}
+        for c, v in st.sets:
+            if c.kind != 'col':
+                continue
+            if len(c.parts) > 1:
+                tn = alias.get(c.parts[-2].lower(), c.parts[-2].lower())
+                out.append((tn, c.parts[-1].lower(), v))
+            elif len(tabs) == 1:
+                out.append((tabs[0].name.lower(), c.parts[-1].lower(), v))
+            else:
+                for t in tabs:
+                    out.append((t.name.lower(), c.parts[-1].lower(), v))        # unqualified column of a multi-table UPDATE: any of them
+    elif st.kind == 'insert':
+        for c, v in st.on_dup:
+            if c.kind == 'col':
+                out.append((st.table.lower(), c.parts[-1].lower(), v))
+    return out
+
+
+def _is_self_assign(col: str, v: N) -> bool:
+    return v.kind == 'col' and v.parts[-1].lower() == col
+
+
+def r8(ctx: Ctx, prog: sf.SqlProgram) -> None:
+    schema = cs.load_schema()
+    sources = schema.cascade_sources(BILLED_ROWS)
+    protected = set(BILLED_ROWS) | set(sources)
+    ctx.need({'instances', 'jobs', 'batches'} <= protected, f'schema replay: the foreign keys from attempts to instances / jobs / batches are not found (cascade sources {sorted(sources)})')
+    ctx.unit('foreign_keys', len(schema.fks))
+    ctx.extra_cov['cascade_sources_of_billed_rows'] = {t: _chain_text(t, p) for t, p in sources.items()}
+    for tb in BILLED_ROWS:
+        for tr in prog.triggers_on(tb, 'DELETE'):
+            ctx.info(f'{tr.name}: DELETE trigger on {tb} (cascaded deletes do not fire it)')
+    n_stmts = 0
+    undecided: List[str] = []
+
+    def judge(st: N, where_key: str, file: str, line: int) -> None:
+        nonlocal n_stmts
+        n_stmts += 1
+        stext = common_short(text(st))
+        if st.kind == 'delete' or (st.kind == 'insert' and getattr(st, 'replace', False)):
+            targets = [t for t, _ in sf.written_tables(st)] if st.kind == 'delete' else [st.table]
+            for t in targets:
+                v = _removal_verdict(schema, prog, t)
+                if v is None:
+                    continue
+                status, why, path = v
+                cons = f'{where_key}::removes {t.lower()} rows'
+                if status == 'undecided':
+                    undecided.append(f'{cons}: {why}')
+                    continue
+                if st.kind == 'delete' and st.where is not None and any(n.kind in ('select', 'subq', 'exists', 'derived') for n in st.where.walk() if isinstance(n, N)):
+                    undecided.append(f'{cons}: the DELETE is restricted by a sub-query; whether it spares every row that still has attempts is not analysed')
+                    continue
+                ctx.bad('R8', cons, _removal_message(t, path, stext), file, line, extra={'table': t, 'cascade': [repr(fk) for fk in path]})
+        for tb, col, v in _assigned_columns(st):
+            if tb in TRIGGER_INPUTS and col in TRIGGER_INPUTS[tb] and not _is_self_assign(col, v):
+                ctx.bad('R8', f'{where_key}::rewrites {tb}.{col}',
+                        f'`{stext}` assigns {tb}.{col}, which the billing triggers {"multiply the billed time by" if col == "quantity" else "key the aggregates on"}: usage already added for the row '
+                        f'under the old value stays where it is while a recomputation over the attempts uses the new value (nothing re-posts the difference)', file, line)
+
+    for name, r in sorted(prog.routines.items()):
+        for st in sf.all_statements(r.ast.body):
+            if st.kind in ('delete', 'update', 'insert'):
+                judge(st, f'sql::{name}::{common_short(text(st), 70)}', r.file, r.line_of(st))
+    # top-level statements of the migrations that run after the aggregates exist (the schema replay only records those)
+    for file, line, body in schema.top_dml:
+        if not _REMOVE_WORD.match(body):
+            continue
+        m = re.match(r'(?:DELETE\s+FROM|TRUNCATE(?:\s+TABLE)?|REPLACE(?:\s+INTO)?)\s+`?([A-Za-z_0-9]+)`?', body, re.I)
+        ctx.need(m is not None, f'{file}:{line}: top-level `{common_short(body, 60)}` not recognised')
+        v = _removal_verdict(schema, prog, m.group(1))
+        if v is not None and v[0] == 'bad':
+            ctx.bad('R8', f'{file}::migration removes {m.group(1).lower()} rows', _removal_message(m.group(1), v[2], common_short(body)), file, line)
+        elif v is not None:
+            undecided.append(f'{file}:{line}: {v[1]}')
+    # only the batch service holds credentials for the batch database; auth / ci / monitoring have databases of their own (with tables of the same names)
+    dirs = ['batch/batch'] if ctx.tier == 'quick' else ['batch']
+    names_re = re.compile(r'\b(' + '|'.join(sorted(protected | set(TRIGGER_INPUTS))) + r')\b')
+    n_mod = 0
+    for rel in pf.walk_py(dirs):
+        if rel.startswith('batch/sql/') or '/test/' in rel or rel.startswith('batch/test'):
+            continue
+        m = pf.load(rel)
+        n_mod += 1
+        if not _REMOVE_WORD.search(m.src) and 'UPDATE' not in m.src.upper():
+            continue
+        covered: set = set()
+        for e in sf.embedded_in(m):
+            a0 = e.call.args[0]
+            for n in ast.walk(a0):
+                covered.add(id(n))
+            if isinstance(a0, ast.Name) and e.fn is not None:
+                d = pf.single_def(e.fn, a0.id)
+                if d is not None:
+                    for n in ast.walk(d):
+                        covered.add(id(n))
+            sql_text = e.sql_text
+            if sql_text is None:
+                # SQL kept in a module-level constant
+                g = None
+                if isinstance(a0, ast.Name):
+                    try:
+                        g = pf.const_str(m.global_assign(a0.id))
+                    except AnalysisError:
+                        g = None
+                if g is None:
+                    continue
+                for st0 in m.tree.body:
+                    if isinstance(st0, (ast.Assign, ast.AnnAssign)):
+                        for n in ast.walk(st0):
+                            covered.add(id(n))
+                sql_text = g
+            up = sql_text.upper()
+            removing = _REMOVE_WORD.search(up) is not None
+            if not (removing or 'UPDATE' in up):
+                continue
+            if not names_re.search(sql_text) and '\u27e6' not in sql_text:
+                continue            # names every table it touches, none of them protected
+            if sql_text is e.sql_text:
+                sts = e.stmts()
+                perr = e.parse_error
+            else:
+                from engines.sqlast import SqlParseError, parse_statements as _ps
+                try:
+                    sts, perr = _ps(sql_text), None
+                except SqlParseError as ex:
+                    sts, perr = [], str(ex)
+            if perr:
+                # only a statement that can remove / rewrite the protected rows matters
+                hole_target = re.search(r'\b(DELETE\s+FROM|DELETE|TRUNCATE(\s+TABLE)?|REPLACE(\s+INTO)?|UPDATE)\s+`?\u27e6', sql_text, re.I) is not None
+                if hole_target or re.search(r'\b(DELETE|TRUNCATE|REPLACE)\b[^;]*\b(' + '|'.join(sorted(protected)) + r')\b', sql_text, re.I) or \
+                        re.search(r'\bUPDATE\s+`?(' + '|'.join(sorted(TRIGGER_INPUTS)) + r')\b', sql_text, re.I):
+                    raise AnalysisError(f'{rel}:{e.lineno}: SQL that may remove or rewrite billed rows does not parse ({perr})')
+                continue
+            for st in sts:
+                if st.kind in ('delete', 'update', 'insert'):
+                    judge(st, f'{rel}::{e.qual}::{common_short(text(st), 70)}', m.path, e.lineno)
+        for n in ast.walk(m.tree):
+            if isinstance(n, ast.Constant) and isinstance(n.value, str) and id(n) not in covered:
+                if re.search(r'\b(DELETE\s+FROM|DELETE\s+\w+\s+FROM|TRUNCATE(\s+TABLE)?|REPLACE(\s+INTO)?)\s+`?(' + '|'.join(sorted(protected)) + r')`?\b', n.value, re.I):
+                    raise AnalysisError(f'{rel}:{n.lineno}: a string that deletes from a table the billed rows hang off is not an analysed execute() argument (opaque SQL)')
+    ctx.unit('statements_checked_for_row_removal', n_stmts)
+    ctx.unit('python_modules_scanned_r8', n_mod)
+    if undecided:
+        raise AnalysisError('R8: ' + undecided[0])
+    # one instance per protected table: nothing removes its rows
+    for t in sorted(protected):
+        ctx.ok('R8', f'schema::{t}::rows never removed', {'cascade': _chain_text(t, sources.get(t, []))})
+    for tb, cols in sorted(TRIGGER_INPUTS.items()):
+        ctx.ok('R8', f'schema::{tb}::trigger inputs write-once', {'columns': list(cols)})
+    # positive control: the same machinery must see a synthetic purge of a cascade source
+    from engines.sqlast import parse_statements
+    st0 = parse_statements('DELETE FROM instances WHERE name = %s AND removed')[0]
+    v0 = _removal_verdict(schema, prog, sf.written_tables(st0)[0][0])
+    if v0 is None or v0[0] != 'bad' or not v0[2]:
+        raise AnalysisError('positive control failed: a synthetic DELETE FROM instances is not connected to attempts by the replayed foreign keys')
+    ctx.ok('R8', 'positive-control::synthetic DELETE FROM instances', nontrivial=False)
+
+
+def r7(ctx: Ctx, prog: sf.SqlProgram) -> None:
+    """Closure rows (engines/c02closure.py): the triggers fan a job's usage out over the rows of job_group_self_and_ancestors of the job's group, so
+    `usage per job group counting all descendant jobs` / `per batch` (the row of the root group) holds only if every new group g with parent p gets
+    exactly (g, g, 0) plus every row of p with level + 1 - also when p was created a moment earlier by the same request."""
+    from engines import c02closure as cc
+    try:
+        results = cc.check_closure(prog, ctx.tier)
+    except (RecursionError, KeyError, AttributeError, TypeError, ValueError, IndexError, AssertionError) as e:     # a shape the abstract executor was not written for
+        raise AnalysisError(f'R7: abstract execution of the job-group creation code failed on an unexpected shape ({type(e).__name__}: {e})')
+    for status, key, msg, file, line in results:
+        if status == 'ok':
+            ctx.ok('R7', key, msg)
+        else:
+            ctx.bad('R7', key, msg, file, line)
+
+
 def run(ctx: Ctx) -> None:
-    ctx.explanation = 'Obligations of the billing-aggregate invariant decided on both billing triggers (effective SQL), the resource registration insert, the compactors and the audit.'
+    ctx.explanation ='Obligations of the billing-aggregate invariant decided on both billing triggers (effective SQL), the resource registration insert, the compactors and the audit.'
     ctx.rule('R1', 'same billed-duration function f in the update trigger (f(NEW)-f(OLD)), the insert trigger (f(current attempt)) and the audit queries', 6)
     ctx.rule('R2', 'each trigger inserts once into each of the four aggregates: amount = diff x quantity, on-duplicate adds the same, keys from the attempt\'s batch/job/owner, ancestors fan-out', 34)
     ctx.rule('R3', 'rows billed: update trigger = attempt_resources of the full attempt key; insert trigger = the inserted row only', 8)
-    ctx.rule('R4', 'add_attempt_resources is idempotent on re-send', 2)
+    ctx.rule('R4', 'add_attempt_resources is idempotent on re-send and binds the attempt key and both ids of one resource record', 4)
     ctx.rule('R5', 'compaction preserves sums (SUM FOR UPDATE, DELETE, INSERT token 0 with one key in one transaction); closed world of aggregate writers', 20)
     ctx.rule('R6', 'the aggregate upserts run whenever the billed duration changes (either direction): enclosing conditions are TRUE on every reachable (OLD, stored) row pair with f(NEW) != f(OLD)', 8)
     ctx.assume('R6: the rows an UPDATE of attempts can store are those the writer statements and attempts_before_update produce from an OLD row with rollup <= end (order domain shared with C03)')
     ctx.assume('MySQL: AFTER INSERT trigger does not fire when INSERT .. ON DUPLICATE KEY UPDATE takes the update path; AFTER UPDATE fires once per changed row')
+    ctx.rule('R7', 'closure rows behind the job-group fan-out: every creation of a job group (each call site of the function inserting the job_groups row, generic loop iteration, per-request '
+             'caches included) writes exactly the self row and every row of the parent with level + 1 into job_group_self_and_ancestors', 2)
+    ctx.assume('R7: a group named as parent exists (created before the request or by an earlier element of the same request); rows of an existing group never change (R8)')
+    ctx.rule('R8', 'billed rows and trigger inputs outlive the aggregates: no statement removes attempts / attempt_resources rows, directly or through an ON DELETE CASCADE chain '
+             '(instances, jobs, batches, ..), and none rewrites the quantity / key columns the triggers used', 13)
+    ctx.assume('MySQL: rows removed by a foreign-key cascade fire no triggers; there is no statement that subtracts usage from an aggregate')
     prog = sf.load_program()
-    check_trigger(ctx, prog, prog.routine('attempts_after_update'), 'update')
-    check_trigger(ctx, prog, prog.routine('attempt_resources_after_insert'), 'insert')
-    r1_audit(ctx)
-    r4(ctx)
-    r5(ctx, prog)
+    # every group of rules runs even if an earlier one has to decline: a violation established by one group must not be hidden by an
+    # unrecognised shape in another (the first decline is re-raised at the end; finish() reports violations first)
+    deferred: List[AnalysisError] = []
+
+    def group(fn, *a) -> None:
+        try:
+            fn(*a)
+        except AnchorRemoved:
+            raise
+        except AnalysisError as e:
+            deferred.append(e)
+    group(check_trigger, ctx, prog, prog.routine('attempts_after_update'), 'update')
+    group(check_trigger, ctx, prog, prog.routine('attempt_resources_after_insert'), 'insert')
+    group(r1_audit, ctx)
+    group(r4, ctx)
+    group(r5, ctx, prog)
+    group(r8, ctx, prog)
+    group(r7, ctx, prog)
     ctx.unit('effective_routines', len(prog.routines))
+    if deferred:
+        raise deferred[0]
